@@ -1,6 +1,7 @@
 CONSTANTS Vals = {1}
           MaxSize = 1
           Caps = {0}
+          Keeps = {FALSE}
 SPECIFICATION TSpec
 POSTCONDITION Accepted
 CHECK_DEADLOCK FALSE
